@@ -21,7 +21,10 @@ def handle (c obs : String) : String × Bool × String :=
   match parseCase c with
   | none => ("bad-case", false, "unparsable case")
   | some (p, rs) =>
-    let model := modelText p rs
+    let model := agreeOr { } (modelText p rs) obs
+    -- outside the property's domain (list-level meaning undefined: unsorted cluster/merge input, invalid
+    -- window parameters) nothing is claimed and nothing is compared
+    if (Spec.eval p).isNone then (obs, true, "") else
     match parseObs obs, rs with
     | some [o], [r] =>
       let (ok, why) := specRun p r o
